@@ -265,7 +265,9 @@ def rule_r4(chk, prog, effects):
               'sys.exit, MemoryError); a local is finalised at once',
               loc=t.loc(init), nontrivial=True)
     tdname = tds[0].targets[0].id if ok else '__TMPDIR'
-    for m in prog.pkg_modules():
+    # the launcher scripts (bin/ddsmt) included: they run in the main
+    # process after main() has returned
+    for m in prog.modules.values():
         for c in ast.walk(m.tree):
             if isinstance(c, ast.Call) and call_name(c) in (
                     'tempfile.mkdtemp', 'tempfile.mkstemp'):
@@ -581,6 +583,20 @@ def run(tier):
               'only, with the adopted list: after an interrupt it holds the '
               'last accepted input (shared with the write part of C01.R2)',
               sub01)
+    from .. import idkeys
+    chk.guard(idkeys.report, chk, prog, 'C06.R9', 'no object address (builtin id()) outlives the function that took it: none keys a module-level or object-level container, is stored on an object or put into a record',
+              'the text written for a candidate is the cached text of a freed one: the file handed on is not the rendering of an accepted input')
+    # what is written is what was accepted (shared with C05.R4: the result a
+    # worker reports as accepted is the list it had checked)
+    from . import c05 as _c05b
+    sub05b = Check('C05', 'other', tier, [], [])
+    chk.guard(_c05b.rule_r4, sub05b, prog)
+    Check.restrict(sub05b, lambda wh, what: str(what).startswith(
+        ('Result(', '(False,', '(True,')))
+    chk.adopt('C06.R10', 'the list a worker reports as accepted is the list '
+              'the command has just accepted, so the file written from it '
+              'holds an accepted input (shared with the echo part of '
+              'C05.R4)', sub05b)
     extra = None
     if tier == 'thorough':
         from .. import selftest
